@@ -109,6 +109,8 @@ def run(ctx):
     ctx.rule = ("paths traced from generated kernels (loops, branches, helpers, closures, all argument tuples on which tracing succeeds), "
                 "from the library tweezer kernels with enumerated arguments, and the reversal of each; non-trivial = distinct paths with a switch")
     corpus = [("generated", {"src": s, "args": repr(a)}, r) for s, a, r in tc.traced_corpus(ctx, ctx.pick(250, 3000), p_err=0.05)]
+    corpus += [("generated/inexact-coordinates", {"src": s, "args": repr(a), "spec": "inexact"}, r)
+               for s, a, r in tc.traced_corpus(ctx, ctx.pick(120, 1000), p_err=0.05, spec=tweezer_prog.harness_spec_inexact())]
     corpus += [("library:" + n, {"kernel": n, "args": a}, r) for n, a, r in library_paths(ctx)]
     corpus += [("reused-tracer", rep, r) for rep, r in reused_tracer_paths(ctx, ctx.pick(120, 1200))]
     rendered_paths(ctx, corpus[:ctx.pick(150, 1500)])
@@ -176,7 +178,7 @@ def replay(data):
         return why is not None, why or "well formed"
     if "src" not in inp:
         return True, "library-kernel replay: re-run bin/check C11: " + str(data.get("what"))
-    S = tweezer_prog.harness_spec()
+    S = tweezer_prog.harness_spec_inexact() if inp.get("spec") == "inexact" else tweezer_prog.harness_spec()
     m = kernels.define(inp["src"])["main"]
     args = eval(inp["args"], {"slice": slice, "IList": ilist.IList})
     st, r = tc.run_impl(m, args, S)
